@@ -27,6 +27,7 @@ func (m *Mutex) Lock() {
 	m.held = true
 	t.acquire(m.clock)
 	s.trace("lock %p", m)
+	s.post(t, "after Mutex.Lock")
 }
 
 func (m *Mutex) Unlock() {
@@ -174,6 +175,7 @@ func (w *WaitGroup) Wait() {
 	s.yield(t, func() bool { return w.n == 0 }, "WaitGroup.Wait")
 	t.acquire(w.clock)
 	s.trace("wg.Wait done")
+	s.post(t, "after WaitGroup.Wait")
 }
 
 // Once is a drop-in for sync.Once.
@@ -241,6 +243,7 @@ func (c *Chan[T]) Send(v T) {
 	c.buf = append(c.buf, v)
 	c.clocks = append(c.clocks, ck)
 	s.trace("send %p len=%d", c, len(c.buf))
+	s.post(t, "after chan send")
 }
 
 // Recv mirrors <-c.
@@ -267,9 +270,11 @@ func (c *Chan[T]) Recv2() (T, bool) {
 		c.buf = c.buf[1:]
 		c.clocks = c.clocks[1:]
 		s.trace("recv %p len=%d", c, len(c.buf))
+		s.post(t, "after chan recv")
 		return v, true
 	}
 	t.acquire(c.cclock)
+	s.post(t, "after chan recv (closed)")
 	var zero T
 	return zero, false
 }
@@ -292,6 +297,7 @@ func (c *Chan[T]) Close() {
 	t.release(&c.cclock)
 	c.closed = true
 	s.trace("close %p", c)
+	s.post(t, "after chan close")
 }
 
 // Len mirrors len(c).
@@ -358,5 +364,13 @@ func Access(p unsafe.Pointer, write bool, site string) {
 		l.reads = map[int]epoch{}
 	} else {
 		l.reads[t.id] = me
+	}
+}
+
+
+// post is the optional scheduling point after an operation (PostYield).
+func (s *Sched) post(t *thread, what string) {
+	if s.PostYield {
+		s.yield(t, nil, what)
 	}
 }
